@@ -730,7 +730,114 @@ def run_mp_silent_survivor(task):
     return res
 
 
+def midwrite_grid(tier):
+    """A worker is SIGKILLed while the consumer is slow: with small messages (one atomic pipe write each) and with messages far
+    larger than PIPE_BUF, so that the victim's feeder thread is blocked in the middle of a message when it dies."""
+    nvs = [0, 20000] if tier == "quick" else [0, 900, 20000, 40000]
+    return [{"nv": nv, "victim": v, "pause_s": 3.0} for nv in nvs for v in ("writer", "waiter")]
+
+
+def _in_write_syscall(pid):
+    """True when some thread of the process sits in write(2) (x86-64 syscall 1): the feeder thread blocked on a full pipe."""
+    try:
+        for t in os.listdir("/proc/%d/task" % pid):
+            with open("/proc/%d/task/%s/syscall" % (pid, t)) as f:
+                if f.read().split()[:1] == ["1"]:
+                    return True
+    except OSError:
+        pass
+    return False
+
+
+def run_mp_midwrite(task):
+    import multiprocessing
+    import signal
+
+    from framework.planes import mpreal
+    from nucs.problems.problem import Problem
+    from nucs.propagators import propagators as PP
+    from nucs.solvers.backtrack_solver import BacktrackSolver
+
+    import nucs.solvers.multiprocessing_solver as mps
+
+    t0 = time.time()
+    res = {"evals": 0, "fails": [], "fail_counts": {}, "samples": [], "counters": {}, "hashes": [], "mode": MODE,
+           "undecided": [], "grid_size": 0}
+
+    def cnt(k, n=1):
+        res["counters"][k] = res["counters"].get(k, 0) + n
+
+    for c in task["cases"]:
+        progress.mark({"midwrite_case": c})
+        nv = c["nv"]
+        p = Problem([(0, 1)] * 8 + [(0, 0)] * nv)
+        p.add_propagator(([0, 1], PP.ALG_DUMMY, []))
+        list(BacktrackSolver(Problem([(0, 1)] * 2), log_level="ERROR").solve())  # compiled code is inherited through fork
+        ms = mps.MultiprocessingSolver([BacktrackSolver(q, log_level="ERROR") for q in p.split(2, 0)], log_level="ERROR")
+        info = {}
+
+        def call(ms=ms, c=c, info=info):
+            n = 0
+            for s in ms.solve():
+                n += 1
+                if n == 1:
+                    info["message_bytes"] = int(s.nbytes)
+                    time.sleep(c["pause_s"])  # a slow consumer: the pipe under the queue fills up
+                    kids = sorted(multiprocessing.active_children(), key=lambda k: k.pid)
+                    writers = [k for k in kids if _in_write_syscall(k.pid)]
+                    info["writers"] = len(writers)
+                    if c["victim"] == "writer":
+                        pick = writers or kids
+                    else:
+                        pick = [k for k in kids if k not in writers] or kids
+                    if pick:
+                        os.kill(pick[0].pid, signal.SIGKILL)
+                        info["killed"] = True
+            return n
+
+        devnull = os.open(os.devnull, os.O_WRONLY)
+        saved_err = os.dup(2)
+        os.dup2(devnull, 2)
+        try:
+            box = mpreal.call_with_oracle(call, wall_cap=90, timed_patience=40.0, expected_children=2, exit_patience=25.0)
+        finally:
+            os.dup2(saved_err, 2)
+            os.close(saved_err)
+            os.close(devnull)
+        res["evals"] += 1
+        big = info.get("message_bytes", 0) > 4096
+        cnt("midwrite.cases")
+        cnt("midwrite.%s.%s" % ("large_messages" if big else "small_messages", box["how"]))
+        if info.get("writers"):
+            cnt("midwrite.victim_chosen_with_a_feeder_thread_blocked_in_write")
+        res["hashes"].append(case_hash(["midwrite", c]))
+        w = dict(c, message_bytes=info.get("message_bytes", 0))
+        if len(res["samples"]) < 2:
+            res["samples"].append({"midwrite_case": w, "outcome": box["how"], "exc": box.get("exc"),
+                                   "wall": round(box.get("wall", 0), 2)})
+        if not info.get("killed"):
+            res["undecided"].append({"midwrite_case": w, "detail": "no worker was alive when the kill was due"})
+            continue
+        if box["how"] in ("blocked_after_death", "deadlock"):
+            names = box.get("blocked_in") or []
+            kind = ("caller_blocked_reading_a_partial_message" if any("recv_bytes" in x for x in names)
+                    else "caller_blocked_after_a_kill_with_a_slow_consumer")
+            key = "%s|%s" % (kind, "large" if big else "small")
+            n = res["fail_counts"].get(key, 0)
+            res["fail_counts"][key] = n + 1
+            res["fails"].append({"prop": "C18", "kind": kind, "detail": "%s; caller stack: %s" % (
+                box["detail"], " < ".join(names[:8])), "midwrite_case": w, "blocked_in": names, "mode": MODE})
+        elif box["how"] == "undecided":
+            res["undecided"].append({"midwrite_case": w, "detail": box["detail"]})
+    res["wall"] = time.time() - t0
+    return res
+
+
 def replay_fault(task):
+    if "midwrite_case" in task["witness"]:
+        c = task["witness"]["midwrite_case"]
+        r = run_mp_midwrite({"cases": [{"nv": c["nv"], "victim": c["victim"], "pause_s": c.get("pause_s", 3.0)}]})
+        return {"fails": r["fails"], "counters": r["counters"]}
     if "silent_survivor_case" in task["witness"]:
         r = run_mp_silent_survivor({"grid": [task["witness"]["silent_survivor_case"]], "chunk": 0, "nchunks": 1})
         return {"fails": r["fails"], "counters": r["counters"]}
